@@ -5,6 +5,7 @@
 package main
 
 import (
+	"encoding/json"
 	"fmt"
 	"os"
 	"time"
@@ -14,11 +15,177 @@ import (
 	"strings"
 	"sync"
 
+	clientv3 "go.etcd.io/etcd/client/v3"
+
 	"github.com/zilliztech/milvus-cdc/core/api"
 	"github.com/zilliztech/milvus-cdc/core/meta"
 
+	"verifharness/etcdembed"
 	"verifharness/hx"
 )
+
+// backend is what the driver needs from a store under test: the api.ReplicateStore handed to the real
+// ReplicateMeteImpl, a fail-before fault switch, a gate for concurrent reports and an INDEPENDENT dump.
+type backend interface {
+	api.ReplicateStore
+	setFail(bool)
+	setGate(chan chan struct{})
+	dump() []hx.Event
+}
+
+func (s *memStore) setFail(b bool)               { s.failNext = b }
+func (s *memStore) setGate(g chan chan struct{}) { s.gate = g }
+
+// etcdStore: the production core/meta.EtcdReplicateStore on an embedded etcd behind a fail-before decorator.  The dump
+// is a raw range read of EVERYTHING stored in that etcd (own root, and a neighbour root that has the own root as a
+// string prefix), decoded here - not through the store under test.
+type etcdStore struct {
+	inner    *meta.EtcdReplicateStore
+	cli      *clientv3.Client
+	root     string
+	failNext bool
+	gate     chan chan struct{}
+}
+
+func (s *etcdStore) setFail(b bool)               { s.failNext = b }
+func (s *etcdStore) setGate(g chan chan struct{}) { s.gate = g }
+func (s *etcdStore) Get(ctx context.Context, key string, withPrefix bool) ([]api.MetaMsg, error) {
+	return s.inner.Get(ctx, key, withPrefix)
+}
+
+func (s *etcdStore) Put(ctx context.Context, key string, value api.MetaMsg) error {
+	if g := s.gate; g != nil {
+		rel := make(chan struct{})
+		g <- rel
+		<-rel
+	}
+	if s.failNext {
+		s.failNext = false
+		return errInjected
+	}
+	return s.inner.Put(ctx, key, value)
+}
+
+func (s *etcdStore) Remove(ctx context.Context, key string) error {
+	if s.failNext {
+		s.failNext = false
+		return errInjected
+	}
+	return s.inner.Remove(ctx, key)
+}
+
+func (s *etcdStore) dump() (res []hx.Event) {
+	res = []hx.Event{}
+	resp, err := s.cli.Get(context.Background(), s.root, clientv3.WithPrefix(), clientv3.WithSort(clientv3.SortByKey, clientv3.SortAscend))
+	if err != nil {
+		fmt.Fprintln(os.Stderr, "MACHINERY: etcd dump:", err)
+		os.Exit(4)
+	}
+	sentinel := false
+	defer func() {
+		if !sentinel {
+			res = append(res, hx.Event{"task": "?neighbour-record-lost", "msg": "?", "kind": "coll", "ready": []string{}, "keytask": "?", "keymsg": "?"})
+		}
+	}()
+	for _, kv := range resp.Kvs {
+		k := string(kv.Key)
+		var v api.MetaMsg
+		if !strings.HasPrefix(k, s.root+"/") {
+			// the neighbour tenant's record (root + "x/..."): must stay exactly as written
+			if k == s.root+"x/task_msg/t1/c1" && string(kv.Value) == "sentinel" {
+				sentinel = true
+			} else {
+				res = append(res, hx.Event{"task": "?neighbour-record-changed", "msg": k, "kind": "coll", "ready": []string{}, "keytask": "?", "keymsg": "?"})
+			}
+			continue
+		}
+		if err := json.Unmarshal(kv.Value, &v); err != nil {
+			res = append(res, hx.Event{"task": "?undecodable", "msg": k, "kind": "coll", "ready": []string{}, "keytask": "?", "keymsg": "?"})
+			continue
+		}
+		rel := strings.TrimPrefix(k, s.root+"/")
+		res = append(res, hx.Event{"task": mn(v.Base.TaskID), "msg": mn(v.Base.MsgID), "kind": kindOf(v.Type),
+			"ready": mnl(uniq(v.Base.ReadyChannels)), "keytask": mn(taskOfKey(rel)), "keymsg": mn(msgOfKey(rel))})
+	}
+	return res
+}
+
+// name variants: the plans speak in model names (t1, c1, p1, v1 ...); params.names maps them to the concrete ids handed
+// to the code (ids in prefix relation, channel names whose lexicographic order differs from the shard order ...); the
+// trace is written in model names again.  A concrete name nobody asked for is logged as "?<name>" (outside the universe).
+var cname = map[string]string{}
+var mname = map[string]string{}
+
+func cn(x string) string {
+	if v, ok := cname[x]; ok {
+		return v
+	}
+	return x
+}
+
+func mn(x string) string {
+	if len(mname) == 0 {
+		return x
+	}
+	if v, ok := mname[x]; ok {
+		return v
+	}
+	return "?" + x
+}
+
+func cnl(a []string) []string {
+	r := make([]string, 0, len(a))
+	for _, x := range a {
+		r = append(r, cn(x))
+	}
+	return r
+}
+
+func mnl(a []string) []string {
+	r := make([]string, 0, len(a))
+	for _, x := range a {
+		r = append(r, mn(x))
+	}
+	sort.Strings(r)
+	return r
+}
+
+var (
+	etcdOnce sync.Once
+	etcdEP   string
+	etcdCli  *clientv3.Client
+	etcdSeq  int
+)
+
+func newEtcdBackend() *etcdStore {
+	etcdOnce.Do(func() {
+		ep, _ := etcdembed.Start()
+		etcdEP = ep
+		c, err := clientv3.New(clientv3.Config{Endpoints: []string{ep}, DialTimeout: 5 * time.Second})
+		if err != nil {
+			fmt.Fprintln(os.Stderr, "MACHINERY: etcd client:", err)
+			os.Exit(4)
+		}
+		etcdCli = c
+	})
+	etcdSeq++
+	root := fmt.Sprintf("/cdc%d", etcdSeq)
+	// previous plans' data is irrelevant: clear everything, then write the neighbour sentinel
+	if _, err := etcdCli.Delete(context.Background(), "/", clientv3.WithPrefix()); err != nil {
+		fmt.Fprintln(os.Stderr, "MACHINERY: etcd clear:", err)
+		os.Exit(4)
+	}
+	if _, err := etcdCli.Put(context.Background(), root+"x/task_msg/t1/c1", "sentinel"); err != nil {
+		fmt.Fprintln(os.Stderr, "MACHINERY: etcd put:", err)
+		os.Exit(4)
+	}
+	inner, err := meta.NewEtcdReplicateStore([]string{etcdEP}, root)
+	if err != nil {
+		fmt.Fprintln(os.Stderr, "MACHINERY: etcd store:", err)
+		os.Exit(4)
+	}
+	return &etcdStore{inner: inner, cli: etcdCli, root: root}
+}
 
 type memStore struct {
 	mu       sync.Mutex
@@ -103,8 +270,8 @@ func (s *memStore) dump() []hx.Event {
 	sort.Strings(keys)
 	for _, k := range keys {
 		v := s.data[k]
-		res = append(res, hx.Event{"task": v.Base.TaskID, "msg": v.Base.MsgID, "kind": kindOf(v.Type),
-			"ready": uniq(v.Base.ReadyChannels), "keytask": taskOfKey(k), "keymsg": msgOfKey(k)})
+		res = append(res, hx.Event{"task": mn(v.Base.TaskID), "msg": mn(v.Base.MsgID), "kind": kindOf(v.Type),
+			"ready": mnl(uniq(v.Base.ReadyChannels)), "keytask": mn(taskOfKey(k)), "keymsg": mn(msgOfKey(k))})
 	}
 	return res
 }
@@ -130,17 +297,18 @@ var tasks = []string{"t1", "t2"}
 func dumpMem(impl *meta.ReplicateMeteImpl) []hx.Event {
 	res := []hx.Event{}
 	ctx := context.Background()
-	for _, t := range tasks {
+	for _, mt := range tasks {
+		t := cn(mt)
 		if cs, err := impl.GetTaskDropCollectionMsg(ctx, t, ""); err == nil {
 			sort.Slice(cs, func(i, j int) bool { return cs[i].Base.MsgID < cs[j].Base.MsgID })
 			for _, c := range cs {
-				res = append(res, hx.Event{"task": c.Base.TaskID, "msg": c.Base.MsgID, "kind": "coll", "ready": uniq(c.Base.ReadyChannels)})
+				res = append(res, hx.Event{"task": mn(c.Base.TaskID), "msg": mn(c.Base.MsgID), "kind": "coll", "ready": mnl(uniq(c.Base.ReadyChannels))})
 			}
 		}
 		if ps, err := impl.GetTaskDropPartitionMsg(ctx, t, ""); err == nil {
 			sort.Slice(ps, func(i, j int) bool { return ps[i].Base.MsgID < ps[j].Base.MsgID })
 			for _, c := range ps {
-				res = append(res, hx.Event{"task": c.Base.TaskID, "msg": c.Base.MsgID, "kind": "part", "ready": uniq(c.Base.ReadyChannels)})
+				res = append(res, hx.Event{"task": mn(c.Base.TaskID), "msg": mn(c.Base.MsgID), "kind": "part", "ready": mnl(uniq(c.Base.ReadyChannels))})
 			}
 		}
 	}
@@ -153,7 +321,19 @@ func main() {
 		if tg := hx.SL(p.Params, "targets"); len(tg) > 0 {
 			targets = tg
 		}
-		store := &memStore{data: map[string]api.MetaMsg{}}
+		cname, mname = map[string]string{}, map[string]string{}
+		if nm, ok := p.Params["names"].(map[string]interface{}); ok {
+			for k, v := range nm {
+				if sv, ok := v.(string); ok {
+					cname[k], mname[sv] = sv, k
+				}
+			}
+		}
+		var store backend = &memStore{data: map[string]api.MetaMsg{}}
+		if hx.S(p.Params, "store") == "etcd" {
+			store = newEtcdBackend()
+		}
+		ctargets := cnl(targets) // in the ORDER of the plan parameter (a collection's shard order), not sorted
 		impl, err := meta.NewReplicateMetaImpl(store)
 		if err != nil {
 			panic(err)
@@ -165,16 +345,16 @@ func main() {
 			switch hx.S(st, "op") {
 			case "report":
 				task, msg, kind, chans, fault := hx.S(st, "task"), hx.S(st, "msg"), hx.S(st, "kind"), hx.SL(st, "chans"), hx.B(st, "fault")
-				base := api.BaseTaskMsg{TaskID: task, MsgID: msg, TargetChannels: append([]string(nil), targets...), ReadyChannels: append([]string(nil), chans...)}
-				store.failNext = fault
+				base := api.BaseTaskMsg{TaskID: cn(task), MsgID: cn(msg), TargetChannels: append([]string(nil), ctargets...), ReadyChannels: cnl(chans)}
+				store.setFail(fault)
 				var ready bool
 				var err error
 				if kind == "coll" {
-					ready, err = impl.UpdateTaskDropCollectionMsg(ctx, api.TaskDropCollectionMsg{Base: base, DatabaseName: "db", CollectionName: msg, DropTS: 7})
+					ready, err = impl.UpdateTaskDropCollectionMsg(ctx, api.TaskDropCollectionMsg{Base: base, DatabaseName: "db", CollectionName: cn(msg), DropTS: 7})
 				} else {
-					ready, err = impl.UpdateTaskDropPartitionMsg(ctx, api.TaskDropPartitionMsg{Base: base, DatabaseName: "db", CollectionName: "c", PartitionName: msg, DropTS: 7})
+					ready, err = impl.UpdateTaskDropPartitionMsg(ctx, api.TaskDropPartitionMsg{Base: base, DatabaseName: "db", CollectionName: "c", PartitionName: cn(msg), DropTS: 7})
 				}
-				store.failNext = false
+				store.setFail(false)
 				ev["task"], ev["msg"], ev["kind"], ev["chans"], ev["fault"] = task, msg, kind, chans, fault
 				ev["ready"], ev["err"] = ready, err != nil
 			case "par":
@@ -183,18 +363,18 @@ func main() {
 				// lands last, 2: B's), else (the implementation serialises them) one after the other as they arrive.
 				task, msg, kind, a, b, w := hx.S(st, "task"), hx.S(st, "msg"), hx.S(st, "kind"), hx.S(st, "a"), hx.S(st, "b"), hx.I(st, "w")
 				gate := make(chan chan struct{}, 4)
-				store.gate = gate
+				store.setGate(gate)
 				type res struct {
 					ready bool
 					err   error
 				}
 				call := func(ch string, out chan res) {
-					base := api.BaseTaskMsg{TaskID: task, MsgID: msg, TargetChannels: append([]string(nil), targets...), ReadyChannels: []string{ch}}
+					base := api.BaseTaskMsg{TaskID: cn(task), MsgID: cn(msg), TargetChannels: append([]string(nil), ctargets...), ReadyChannels: []string{cn(ch)}}
 					var r res
 					if kind == "coll" {
-						r.ready, r.err = impl.UpdateTaskDropCollectionMsg(ctx, api.TaskDropCollectionMsg{Base: base, DatabaseName: "db", CollectionName: msg, DropTS: 7})
+						r.ready, r.err = impl.UpdateTaskDropCollectionMsg(ctx, api.TaskDropCollectionMsg{Base: base, DatabaseName: "db", CollectionName: cn(msg), DropTS: 7})
 					} else {
-						r.ready, r.err = impl.UpdateTaskDropPartitionMsg(ctx, api.TaskDropPartitionMsg{Base: base, DatabaseName: "db", CollectionName: "c", PartitionName: msg, DropTS: 7})
+						r.ready, r.err = impl.UpdateTaskDropPartitionMsg(ctx, api.TaskDropPartitionMsg{Base: base, DatabaseName: "db", CollectionName: "c", PartitionName: cn(msg), DropTS: 7})
 					}
 					out <- r
 				}
@@ -234,14 +414,14 @@ func main() {
 					close(second)
 				}
 				xa, xb := <-ra, <-rb
-				store.gate = nil
+				store.setGate(nil)
 				ev["task"], ev["msg"], ev["kind"], ev["a"], ev["b"], ev["w"], ev["overlap"] = task, msg, kind, a, b, w, overlap
 				ev["ready"], ev["err"] = xa.ready || xb.ready, xa.err != nil || xb.err != nil
 			case "remove":
 				task, msg, fault := hx.S(st, "task"), hx.S(st, "msg"), hx.B(st, "fault")
-				store.failNext = fault
-				err := impl.RemoveTaskMsg(ctx, task, msg)
-				store.failNext = false
+				store.setFail(fault)
+				err := impl.RemoveTaskMsg(ctx, cn(task), cn(msg))
+				store.setFail(false)
 				ev["task"], ev["msg"], ev["fault"], ev["err"] = task, msg, fault, err != nil
 			case "reload":
 				impl, err = meta.NewReplicateMetaImpl(store)
